@@ -31,8 +31,8 @@ CHECKS = {
          "stability of settled values is an action property of the offline machine checked on all short traces; recorded pairs compared with each other on the settled region and with the model", "4 C16"),
  "C18": ("TLC model checking of each law as an invariant Sig(lhs)=Sig(rhs) on all short traces + trace validation of both sides on the same real monitor",
          "laws are theorems of the specification's semantics; both sides run on the same real monitor (offline, online, pastified) and are compared pointwise, independent of Sig", "4 C18"),
- "C04": ("trace validation (TraceCt) of dense-time evaluate() results against the cell-exact dense-time semantics Dense!SigC",
-         "dense-time semantics specified exactly on unit cells (integer break-points and bounds, held tail with settling extension); every recorded result must be monotone, start at the domain begin and equal SigC at every cell start and mid-point", "4 C04"),
+ "C04": ("TLC model checking of the operational model of the dense-time offline monitor (DenseOff.tla: list merge, forward/backward sweeps of the bounded operators, since/until folds) against the cell-exact semantics Dense!SigC (DenseOffMC); trace validation (TraceCt) of evaluate() results against Dense!SigC, every evaluate() also compared with the operational model",
+        "dense-time semantics specified exactly on unit cells (integer break-points and bounds, held tail with settling extension); every recorded result must be monotone, start at the domain begin and equal SigC at every cell start and mid-point; the offline algorithms themselves are transcribed and proved to denote SigC on all short signals, and their call-by-call equality with the code is measured on every run", "4 C04"),
  "C05": ("TLC model checking of the operational model of the dense-time online monitor (DenseOn.tla: pending-interval lists of once/historically[a,b], 13-case stream intersection, operator buffers) over every chunking / per-variable schedule (DenseOnMC, DenseOnFMC); TLC behaviours replayed on the real operator classes (TraceOp); trace validation (TraceCt) of whole monitors under many chunkings against Dense!SigC, every update() also compared with the operational model",
         "the update() contract mentions no chunking at all: concatenated outputs must denote SigC of the whole fed signal wherever defined; all-at-once, one-per-update, random and staggered per-variable schedules; exhaustive over schedules on the model, whose call-by-call equality with the code is measured on every run", "4 C05"),
  "C08": ("Units!SamplesOf / Norm!NormAst compute the samples each written bound denotes; trace validation of 2-3 spellings per duration on offline, online, pastified and dense monitors",
